@@ -177,3 +177,6 @@ func (w *Watchdog) Run(f func()) {
 	f()
 	w.done <- true
 }
+
+// Tilde writes a judge-only implementation output line (not compared with the model).
+func (t *Trace) Tilde(l string) { fmt.Fprintf(t.w, "~ %s\n", l) }
